@@ -36,6 +36,20 @@ func init() {
 		panic(err)
 	}
 	blks = append(blks, alias)
+	// 4..: further distinct blocks for requests with long key lists (longer than any small constant such as the
+	// notifications bufferSize 16)
+	for i := 0; i < 40; i++ {
+		blks = append(blks, blocks.NewBlock([]byte(fmt.Sprintf("verif-c37-block-k%d", i))))
+	}
+}
+
+// seq returns the block indices 4 .. 4+n-1.
+func seq(from, n int) []int {
+	out := make([]int, 0, n)
+	for i := 0; i < n; i++ {
+		out = append(out, 4+from+i)
+	}
+	return out
 }
 
 func idx(c cid.Cid) int {
@@ -63,8 +77,10 @@ func keyStr(ix []int) string {
 	for _, i := range ix {
 		if i < 0 {
 			sb.WriteByte('?')
-		} else {
+		} else if i < len(names) {
 			sb.WriteByte(names[i])
+		} else {
+			fmt.Fprintf(&sb, "<%d>", i-4)
 		}
 	}
 	return sb.String()
@@ -596,6 +612,11 @@ func scripts() []*script {
 		{name: "two_a_ab_pubAB", reqs: []reqSpec{{keys: []int{a}}, {keys: []int{a, b}}}, pubs: P{{{a, b}}}, cancel: noCancel, deltaT: -1},
 		{name: "two_a_a_pubA_cancel0", reqs: []reqSpec{{keys: []int{a}}, {keys: []int{a}}}, pubs: P{{{a}}}, cancel: 0, deltaT: -1},
 		{name: "two_ab_a_pubA_pubB", reqs: []reqSpec{{keys: []int{a, b}}, {keys: []int{a}}}, pubs: P{{{a}}, {{b}}}, cancel: noCancel, delta: -1, deltaT: -1},
+		// key lists longer than any small constant (18 and 33 distinct keys; buffers sized by a capped len(keys) would
+		// bind here), everything else minimal: one requester, one publisher, a racing canceller
+		{name: "k18_pubAll_cancel", reqs: one(seq(0, 18)...), pubs: P{{seq(0, 18)}}, cancel: 0, delta: 0, deltaT: -1, maxSteps: 20000},
+		{name: "k33_pub17_16_cancel", reqs: one(seq(0, 33)...), pubs: P{{seq(0, 17), seq(17, 16)}}, cancel: 0, delta: -1, deltaT: -1, maxSteps: 40000},
+		{name: "k18_pubAll", reqs: one(seq(0, 18)...), pubs: P{{seq(0, 18)}}, cancel: noCancel, delta: -1, deltaT: -1, maxSteps: 20000},
 		// the two smallest scenarios once more, one deviation deeper in the thorough tier (bound 4; quick: base schedule only)
 		{name: "a_pubA_deep", reqs: one(a), pubs: P{{{a}}}, cancel: noCancel, delta: -2, deltaT: 1},
 		{name: "pubA_a_deep", reqs: one(a), pubs: P{{{a}}}, cancel: noCancel, pubFirst: true, delta: -2, deltaT: 1},
